@@ -12,7 +12,11 @@
 //!      position, closures, `$` in macros, struct/enum patterns, attributes, blank lines;
 //!   3. lists: every comma separated list kind x number of elements x trailing comma present or
 //!      absent x a comment behind / below the last (or first) element x short / long elements;
-//!   4. use / mod runs with a comment on every element position (sorting and merging).
+//!   4. use / mod runs with a comment on every element position (sorting and merging);
+//!   5. construct x parent context: the rules keyed on (node kind, parent kind, grandparent kind)
+//!      see every expression / type / pattern / item construct as a direct child of every parent
+//!      the grammar allows (tuple, array, argument list, generic arguments, operands, conditions,
+//!      initialisers, arms, closure bodies ...), and nested two deep.
 //! Everything is enumerated deterministically; inputs that do not parse with zero diagnostics
 //! are dropped by the oracle (and counted).
 
@@ -542,6 +546,283 @@ fn use_runs(out: &mut Vec<Adj>) {
     }
 }
 
+/// Constructs by syntactic class.
+const EXPR_CONSTRUCTS: [(&str, &str); 44] = [
+    ("turbofish-variant", "Option::None::<u8>"),
+    ("turbofish-type-variant", "Option::<u8>::None"),
+    ("turbofish-call", "foo::<u8>()"),
+    ("turbofish-path", "a::b::<u8>"),
+    ("turbofish-nested", "a::<B<u8>>::c::<d::E<u8>>()"),
+    ("turbofish-struct", "G::<u8> { a: 1 }"),
+    ("turbofish-method", "x.m::<u8>()"),
+    ("closure", "|p| p"),
+    ("closure-0", "|| 1"),
+    ("closure-typed", "|p: G::<u8>| -> G::<u8> { p }"),
+    ("neg", "-x"),
+    ("not", "!x"),
+    ("bitnot", "~x"),
+    ("snapshot", "@x"),
+    ("desnap", "*x"),
+    ("ref", "&x"),
+    ("add", "x + y"),
+    ("eq", "x == y"),
+    ("lt", "x < y"),
+    ("and", "x && y"),
+    ("struct-ctor", "S { a: 1 }"),
+    ("struct-ctor-short", "S { a, ..b }"),
+    ("match", "match a { _ => 1 }"),
+    ("if", "if a { 1 } else { 2 }"),
+    ("loop", "loop { break 1; }"),
+    ("block", "{ x }"),
+    ("macro-paren", "m!(x)"),
+    ("macro-brack", "array![1]"),
+    ("lit-suffix", "1_u8"),
+    ("short-string", "'a'"),
+    ("string", "\"s\""),
+    ("range", "1..2"),
+    ("question", "x?"),
+    ("call", "g(x)"),
+    ("method", "x.m()"),
+    ("index", "x[0]"),
+    ("field", "x.y"),
+    ("tuple", "(x, y)"),
+    ("tuple-1", "(x,)"),
+    ("array", "[x, y]"),
+    ("array-repeat", "[x; 2]"),
+    ("paren", "(x)"),
+    ("path", "a::b"),
+    ("ident", "x"),
+];
+
+const TYPE_CONSTRUCTS: [(&str, &str); 14] = [
+    ("prim", "u8"),
+    ("generic", "Array<u8>"),
+    ("generic-turbofish", "Array::<u8>"),
+    ("path-turbofish", "a::B::<u8>"),
+    ("path-mid-turbofish", "a::B::<u8>::C"),
+    ("nested-generic", "Array<Array<u8>>"),
+    ("nested-turbofish", "Option<Array::<u8>>"),
+    ("tuple", "(u8, u16)"),
+    ("tuple-1", "(u8,)"),
+    ("unit", "()"),
+    ("fixed-array", "[u8; 2]"),
+    ("snapshot", "@u8"),
+    ("snapshot-generic", "@Array::<u8>"),
+    ("path", "a::b"),
+];
+
+const PATTERN_CONSTRUCTS: [(&str, &str); 17] = [
+    ("ident", "x"),
+    ("wild", "_"),
+    ("lit", "1"),
+    ("short-string", "'a'"),
+    ("path", "A::B"),
+    ("enum", "A::B(c)"),
+    ("enum-turbofish", "A::<u8>::B(c)"),
+    ("enum-nested", "Some(Some(c))"),
+    ("tuple", "(x, y)"),
+    ("tuple-1", "(x,)"),
+    ("struct", "S { a, b: c, .. }"),
+    ("struct-turbofish", "S::<u8> { a }"),
+    ("array", "[x, y]"),
+    ("mut", "mut x"),
+    ("ref", "ref x"),
+    ("or", "1 | 2"),
+    ("true", "true"),
+];
+
+/// Parent contexts: the construct replaces `§`.
+const EXPR_CONTEXTS: [(&str, &str); 58] = [
+    ("tuple-first", "fn f() {\n    let v = (§, 1);\n}\n"),
+    ("tuple-last", "fn f() {\n    let v = (1, §);\n}\n"),
+    ("tuple-single", "fn f() {\n    let v = (§,);\n}\n"),
+    ("paren", "fn f() {\n    let v = (§);\n}\n"),
+    ("array-first", "fn f() {\n    let v = [§, 2];\n}\n"),
+    ("array-last", "fn f() {\n    let v = [2, §];\n}\n"),
+    ("array-repeat-value", "fn f() {\n    let v = [§; 2];\n}\n"),
+    ("array-repeat-len", "fn f() {\n    let v = [x; §];\n}\n"),
+    ("call-arg", "fn f() {\n    g(§);\n}\n"),
+    ("call-arg-2", "fn f() {\n    g(1, §);\n}\n"),
+    ("named-arg", "fn f() {\n    g(a: §);\n}\n"),
+    ("method-arg", "fn f() {\n    x.m(§);\n}\n"),
+    ("callee", "fn f() {\n    (§)(1);\n}\n"),
+    ("struct-field", "fn f() {\n    let v = S { a: § };\n}\n"),
+    ("struct-tail", "fn f() {\n    let v = S { a: 1, ..§ };\n}\n"),
+    ("let-init", "fn f() {\n    let v = §;\n}\n"),
+    ("let-typed-init", "fn f() {\n    let v: u8 = §;\n}\n"),
+    ("let-else-init", "fn f() {\n    let Some(v) = § else {\n        return;\n    };\n}\n"),
+    ("return", "fn f() {\n    return §;\n}\n"),
+    ("break", "fn f() {\n    loop {\n        break §;\n    }\n}\n"),
+    ("match-scrutinee", "fn f() {\n    match § {\n        _ => 1,\n    }\n}\n"),
+    ("match-arm", "fn f() {\n    match a {\n        _ => §,\n    }\n}\n"),
+    ("match-arm-first", "fn f() {\n    match a {\n        1 => §,\n        _ => 2,\n    }\n}\n"),
+    ("index", "fn f() {\n    let v = x[§];\n}\n"),
+    ("indexed", "fn f() {\n    let v = §[0];\n}\n"),
+    ("method-receiver", "fn f() {\n    let v = §.m();\n}\n"),
+    ("field-receiver", "fn f() {\n    let v = §.y;\n}\n"),
+    ("binary-left", "fn f() {\n    let v = § + 1;\n}\n"),
+    ("binary-right", "fn f() {\n    let v = 1 + §;\n}\n"),
+    ("mul-left", "fn f() {\n    let v = § * 1;\n}\n"),
+    ("cmp-left", "fn f() {\n    let v = § < 1;\n}\n"),
+    ("cmp-right", "fn f() {\n    let v = 1 > §;\n}\n"),
+    ("and-left", "fn f() {\n    let v = § && b;\n}\n"),
+    ("or-right", "fn f() {\n    let v = b || §;\n}\n"),
+    ("range-lo", "fn f() {\n    let v = §..1;\n}\n"),
+    ("range-hi", "fn f() {\n    let v = 1..§;\n}\n"),
+    ("neg-operand", "fn f() {\n    let v = -§;\n}\n"),
+    ("not-operand", "fn f() {\n    let v = !§;\n}\n"),
+    ("snapshot-operand", "fn f() {\n    let v = @§;\n}\n"),
+    ("desnap-operand", "fn f() {\n    let v = *§;\n}\n"),
+    ("question-operand", "fn f() {\n    let v = §?;\n}\n"),
+    ("if-cond", "fn f() {\n    if § {\n        x\n    }\n}\n"),
+    ("while-cond", "fn f() {\n    while § {\n        x;\n    }\n}\n"),
+    ("if-let-value", "fn f() {\n    if let Some(y) = § {\n        y;\n    }\n}\n"),
+    ("for-iter", "fn f() {\n    for i in § {\n        x;\n    }\n}\n"),
+    ("closure-body", "fn f() {\n    let c = |p| §;\n}\n"),
+    ("closure-block-body", "fn f() {\n    let c = |p| {\n        §\n    };\n}\n"),
+    ("const-init", "const C: u8 = §;\n"),
+    ("impl-const-init", "impl I of T {\n    const C: u8 = §;\n}\n"),
+    ("tail", "fn f() -> u8 {\n    §\n}\n"),
+    ("stmt", "fn f() {\n    §;\n}\n"),
+    ("assign-rhs", "fn f() {\n    x = §;\n}\n"),
+    ("assign-lhs", "fn f() {\n    § = x;\n}\n"),
+    ("add-assign-rhs", "fn f() {\n    x += §;\n}\n"),
+    ("macro-arg", "fn f() {\n    m!(§);\n}\n"),
+    ("macro-brack-arg", "fn f() {\n    let v = array![§, 1];\n}\n"),
+    ("if-branch", "fn f() {\n    let v = if a {\n        §\n    } else {\n        §\n    };\n}\n"),
+    ("block-value", "fn f() {\n    let v = {\n        §\n    };\n}\n"),
+];
+
+const TYPE_CONTEXTS: [(&str, &str); 26] = [
+    ("tuple-type-first", "fn f(v: (§, u8)) {}\n"),
+    ("tuple-type-last", "fn f(v: (u8, §)) {}\n"),
+    ("tuple-type-single", "fn f(v: (§,)) {}\n"),
+    ("array-type", "fn f(v: [§; 2]) {}\n"),
+    ("param", "fn f(v: §) {}\n"),
+    ("ref-param", "fn f(ref v: §) {}\n"),
+    ("return", "fn f() -> § {\n    x\n}\n"),
+    ("extern-return", "extern fn f() -> § nopanic;\n"),
+    ("trait-fn", "trait T {\n    fn f(v: §) -> §;\n}\n"),
+    ("let", "fn f() {\n    let v: § = x;\n}\n"),
+    ("generic-arg-type", "fn f(v: Array<§>) {}\n"),
+    ("generic-arg-type-2", "fn f(v: Result<u8, §>) {}\n"),
+    ("generic-arg-expr", "fn f() {\n    g::<§>();\n}\n"),
+    ("generic-arg-expr-path", "fn f() {\n    let v = G::<§>::new();\n}\n"),
+    ("generic-arg-named", "fn f(v: G<T: §>) {}\n"),
+    ("member", "struct S {\n    v: §,\n}\n"),
+    ("variant", "enum E {\n    V: §,\n}\n"),
+    ("closure-param", "fn f() {\n    let c = |p: §| p;\n}\n"),
+    ("closure-return", "fn f() {\n    let c = |p| -> § { p };\n}\n"),
+    ("const", "const C: § = x;\n"),
+    ("alias", "type A = §;\n"),
+    ("impl-type", "impl I of T {\n    type A = §;\n}\n"),
+    ("impl-of-arg", "impl I of T<§> {}\n"),
+    ("generic-param-impl", "fn f<T, +Tr<§>>() {}\n"),
+    ("generic-param-const", "fn f<const N: §>() {}\n"),
+    ("snapshot-of", "fn f(v: @§) {}\n"),
+];
+
+const PATTERN_CONTEXTS: [(&str, &str); 14] = [
+    ("let", "fn f() {\n    let § = a;\n}\n"),
+    ("let-else", "fn f() {\n    let § = a else {\n        return;\n    };\n}\n"),
+    ("match-arm", "fn f() {\n    match a {\n        § => 1,\n        _ => 2,\n    }\n}\n"),
+    ("match-arm-or", "fn f() {\n    match a {\n        § | _ => 1,\n    }\n}\n"),
+    ("if-let", "fn f() {\n    if let § = a {\n        x;\n    }\n}\n"),
+    ("while-let", "fn f() {\n    while let § = a {\n        x;\n    }\n}\n"),
+    ("for", "fn f() {\n    for § in a {\n        x;\n    }\n}\n"),
+    ("closure-param", "fn f() {\n    let c = |§| 1;\n}\n"),
+    ("tuple-first", "fn f() {\n    let (§, y) = a;\n}\n"),
+    ("tuple-last", "fn f() {\n    let (y, §) = a;\n}\n"),
+    ("enum-inner", "fn f() {\n    let Some(§) = a;\n}\n"),
+    ("struct-field", "fn f() {\n    let S { a: § } = a;\n}\n"),
+    ("array-elem", "fn f() {\n    let [§, y] = a;\n}\n"),
+    ("nested-tuple", "fn f() {\n    let ((§, y), z) = a;\n}\n"),
+];
+
+/// Items that may carry attributes, and the item lists that may hold them.
+const ITEM_CONSTRUCTS: [(&str, &str); 14] = [
+    ("fn", "fn g() {}"),
+    ("struct", "struct S {}"),
+    ("enum", "enum E {}"),
+    ("const", "const C: u8 = 1;"),
+    ("use", "use a::b;"),
+    ("mod", "mod m;"),
+    ("mod-body", "mod m {}"),
+    ("trait", "trait T {}"),
+    ("impl", "impl I of T {}"),
+    ("impl-alias", "impl I = a::J;"),
+    ("type", "type A = u8;"),
+    ("extern-fn", "extern fn g() nopanic;"),
+    ("extern-type", "extern type X;"),
+    ("inline-macro", "m!(x);"),
+];
+const ITEM_CONTEXTS: [(&str, &str); 5] = [
+    ("file", "§\n"),
+    ("mod-body", "mod outer {\n    §\n}\n"),
+    ("impl-body", "impl I of T {\n    §\n}\n"),
+    ("trait-body", "trait T {\n    §\n}\n"),
+    ("fn-body", "fn f() {\n    §\n}\n"),
+];
+
+/// construct x parent context: every construct as a direct child of every parent kind the grammar
+/// allows (what the grammar does not allow is dropped by the parse-clean filter), and nested two
+/// deep for the expression contexts that build a parent node of their own.
+fn construct_context(out: &mut Vec<Adj>) {
+    for (cl, ctx) in EXPR_CONTEXTS {
+        for (kl, k) in EXPR_CONSTRUCTS {
+            push(out, format!("ctx-expr/{cl}/{kl}"), ctx.replace('§', k));
+        }
+    }
+    for (cl, ctx) in TYPE_CONTEXTS {
+        for (kl, k) in TYPE_CONSTRUCTS {
+            push(out, format!("ctx-type/{cl}/{kl}"), ctx.replace('§', k));
+        }
+    }
+    for (cl, ctx) in PATTERN_CONTEXTS {
+        for (kl, k) in PATTERN_CONSTRUCTS {
+            push(out, format!("ctx-pattern/{cl}/{kl}"), ctx.replace('§', k));
+        }
+    }
+    for (cl, ctx) in ITEM_CONTEXTS {
+        for (kl, k) in ITEM_CONSTRUCTS {
+            for attr in ["", "#[a]\n    ", "#[a(b: 1)] ", "/// doc\n    #[a]\n    ", "pub ", "#[a]\n    pub(crate) "] {
+                push(out, format!("ctx-item/{cl}/{kl}/{}", attr.trim().replace('\n', " ")), ctx.replace('§', &format!("{attr}{k}")));
+            }
+        }
+    }
+    // nested two deep: inner context inside an outer context (expression level only)
+    let inner: [(&str, &str); 14] = [
+        ("tuple-first", "(§, 1)"),
+        ("tuple-last", "(1, §)"),
+        ("array-first", "[§, 2]"),
+        ("array-repeat", "[§; 2]"),
+        ("call-arg", "g(§)"),
+        ("struct-field", "S { a: § }"),
+        ("index", "x[§]"),
+        ("method-receiver", "§.m()"),
+        ("binary-right", "1 + §"),
+        ("neg", "-§"),
+        ("snapshot", "@§"),
+        ("closure-body", "|p| §"),
+        ("block", "{ § }"),
+        ("macro-arg", "array![§]"),
+    ];
+    for (ol, outer) in inner {
+        for (il, inn) in inner {
+            for (kl, k) in EXPR_CONSTRUCTS {
+                let e = outer.replace('§', &inn.replace('§', k));
+                push(out, format!("ctx-nested/{ol}>{il}/{kl}"), format!("fn f() {{\n    let v = {e};\n}}\n"));
+            }
+        }
+    }
+    // types and patterns nested in tuples / generics two deep
+    for (kl, k) in TYPE_CONSTRUCTS {
+        for (wl, w) in [("tuple-tuple", "((§, u8), u8)"), ("array-tuple", "[(§, u8); 2]"), ("tuple-array", "([§; 2], u8)"), ("generic-tuple", "Array<(§, u8)>"), ("tuple-generic", "(Array<§>, u8)"), ("snapshot-tuple", "@(§, u8)"), ("generic-generic", "Array<Span<§>>")] {
+            push(out, format!("ctx-nested-type/{wl}/{kl}"), format!("fn f(v: {}) -> {} {{\n    let w: {} = g::<{}>();\n    w\n}}\n", w.replace('§', k), w.replace('§', k), w.replace('§', k), w.replace('§', k)));
+        }
+    }
+}
+
 /// All adjacency inputs (deterministic).
 pub fn all() -> Vec<Adj> {
     let mut out = vec![];
@@ -549,6 +830,7 @@ pub fn all() -> Vec<Adj> {
     expression_adjacency(&mut out);
     list_adjacency(&mut out);
     use_runs(&mut out);
+    construct_context(&mut out);
     out
 }
 
